@@ -53,6 +53,9 @@ def run(ctx):
                     if s_.reply_on_name() in ("Always", "Error", "Success") and s_.id_int() is not None:
                         built.add(str(s_.id_int()))
         generic = rt.err.get("other", []) + rt.err.get("any", [])
+        # an arm reply() has of its own is an obligation too, whether or not a construction with that id was found
+        # (an id can be assigned to a message after it was built)
+        built |= {k for k in rt.err if k not in ("other", "any")}
         for ident in sorted(built, key=lambda x: int(x)) + ["other"]:
             ps = rt.err.get(ident) or generic if ident != "other" else generic
             bad = []
